@@ -46,14 +46,23 @@ impl ArrayLike for SliceArray {
 	}
 
 	fn get(&self, index: usize) -> Result<Option<Val>> {
+		if index >= self.len() {
+			return Ok(None);
+		}
 		self.inner.get(self.map_idx(index))
 	}
 
 	fn get_lazy(&self, index: usize) -> Option<Thunk<Val>> {
+		if index >= self.len() {
+			return None;
+		}
 		self.inner.get_lazy(self.map_idx(index))
 	}
 
 	fn get_cheap(&self, index: usize) -> Option<Val> {
+		if index >= self.len() {
+			return None;
+		}
 		self.inner.get_cheap(self.map_idx(index))
 	}
 	fn is_cheap(&self) -> bool {
